@@ -238,6 +238,43 @@ class ModelView:
         reach = set(S) | set(self.clplus(f, frozenset(S)))
         return any(x in self.clplus(f, frozenset([x])) for x in reach)
 
+    def fanout(self):
+        """upper bound on the length of the list one navigation returns (a link that lists the asset on both sides
+        may be visited once per side)"""
+        tot = {}
+        for (lf, L, rf, R) in self.links:
+            tot[lf] = tot.get(lf, 0) + 2 * len(L)
+            tot[rf] = tot.get(rf, 0) + 2 * len(R)
+        return max([1] + list(tot.values()))
+
+    def est(self, e, k, S=None):
+        """(length of the result list, number of navigations) that a list-based evaluator which never removes
+        duplicates can need for e from a list of k assets drawn from the set S (default: all assets).  A closure
+        whose input reaches a cycle of its field is costed as one breadth-first closure per list element (any
+        terminating implementation must cut the cycle); otherwise as the walk along all paths.  Only used to size
+        the termination guard, never to judge a result."""
+        if S is None: S = frozenset(range(self.n))
+        D = self.fanout()
+        op = e[0]
+        if op == "a": return k, 0
+        if op == "f": return k * D, k
+        if op == "t":
+            if self.cyclic_from(e[1], S):
+                return k * self.n, k * (self.n + 1)
+            g = sum(D ** i for i in range(1, max(2, self.n)))
+            return k * g, k * (1 + g)
+        if op == "c":
+            s1, n1 = self.est(e[1], k, S); s2, n2 = self.est(e[2], s1, self.sem(e[1], S)[1])
+            return s2, n1 + n2
+        if op == "s":
+            s1, n1 = self.est(e[2], k, S)
+            return k * s1, k * n1
+        if op == "v":
+            cands = [self.est(body, k, S) for (U, v), body in self.lang.vars.items() if v == e[1]]
+            return max(c[0] for c in cands), max(c[1] for c in cands)
+        (s1, n1), (s2, n2) = self.est(e[1], k, S), self.est(e[2], k, S)
+        return {"u": s1 + s2, "i": s2, "d": s1}[op], n1 + n2
+
     def sem(self, e, lo, hi=None):
         """interval [lo', hi'] containing the meaning of e from any X with lo <= X <= hi"""
         if hi is None: hi = lo
@@ -411,11 +448,11 @@ class Real:
         spec = to_spec(e)
         targets = [self.objs[k] for k in xs]
         run = lambda: _process_step_expression(self.lg, self.model, list(targets), spec)
-        st, val = guarded(self.model, run, budget or self.nav_budget)
-        if st == "budget" and budget is None and self.mv is not None and \
-                not closure_over_cycle_possible(self.mv, e):
-            # expensive, not (yet) non-terminating: one more attempt with a far larger budget
-            st, val = guarded(self.model, run, self.nav_budget * BIG)
+        allowed = budget or self.budget_for([(e, xs)])
+        if allowed is None:
+            out = self._memo[key] = ("skip", None, None, 0, ())
+            return out
+        st, val = guarded(self.model, run, allowed)
         if st != "ok":
             out = (st, val, None, 0, ())
         else:
@@ -425,9 +462,23 @@ class Real:
         self._memo[key] = out
         return out
 
-    def generate(self, budget=None):
+    def budget_for(self, work):
+        """navigation budget for a list of (expression, start list of asset indexes): the base budget, or 4 x the
+        reference's bound for a duplicate-keeping evaluator if that is larger; None = too expensive to run (> CAP)"""
+        if self.mv is None:
+            return self.nav_budget
+        need = 4 * sum(self.mv.est(e, len(xs), frozenset(xs))[1] for (e, xs) in work)
+        if need > CAP:
+            return None
+        return max(self.nav_budget, need)
+
+    def generate(self, work=()):
+        """AttackGraph(lang, model) under the guard; work = the (expression, [asset]) pairs the generation evaluates"""
         from maltoolbox.attackgraph import AttackGraph
-        return guarded(self.model, lambda: AttackGraph(self.lg, self.model), budget or self.nav_budget)
+        allowed = self.budget_for(list(work))
+        if allowed is None:
+            return "skip", None
+        return guarded(self.model, lambda: AttackGraph(self.lg, self.model), allowed)
 
 
 # =====================================================================================================
@@ -477,7 +528,7 @@ def closure_over_cycle_possible(mv, e):
     return any(mv.cyclic_from(f, everything) for f in trans_fields(mv.lang, e))
 
 
-BIG = 25          # factor on the navigation budget for the second attempt of an evaluation without closure over a cycle
+CAP = 200000      # evaluations whose guard would have to allow more navigations than this are not run at all
 
 
 def nonterm_blame(real, mv, e, X, st, val):
@@ -536,6 +587,8 @@ def blame(real, mv, e, X):
             if b: return b
     st, got, name, _n, _raw = real.eval(e, X)
     where = "%s from assets %s" % (show(e), X)
+    if st == "skip":
+        return None
     if st != "ok":
         if st == "exc":
             return dict(op=op, kind="exc", sig="%s:%s" % (OPNAME[op], describe(st, got)),
